@@ -10,6 +10,7 @@ in-progress state files and the log written by the user's own hooks must be equa
 import hashlib
 import json
 import os
+import re
 import shutil
 from . import common as C
 from .gitsim import Sim
@@ -38,7 +39,7 @@ TRUSTED_BASE = [
     "vlib/gitsim.py; the twin comparison in vlib/c06.py; hook H4 (GIT_AI_VERIF_ARGV_LOG) in /repo/src/verif_api.rs",
     "modelled not verified: git; the hook bodies (facts f_pre/f_post); process spawning and signal forwarding",
 ]
-ASSUMPTIONS = ["stdin is not a TTY", "command vectors avoid the C18 known classes (meta flags before the command, shadowing aliases)"]
+ASSUMPTIONS = ["stdin is not a TTY", "command vectors avoid the C18 known classes (meta flags before the command, shadowing aliases, alias values of class C18-K5)"]
 
 HOOK = "#!/bin/sh\necho \"$(basename $0) $*\" >> \"$(git rev-parse --git-dir)/userhook.log\"\nexit 0\n"
 
@@ -46,6 +47,37 @@ READ_ONLY = {"rev-parse", "config", "diff", "diff-tree", "show", "cat-file", "bl
              "merge-base", "rev-list", "log", "for-each-ref", "symbolic-ref", "var", "version", "check-attr", "grep",
              "ls-remote", "name-rev", "show-ref", "branch", "worktree", "remote", "stash", "describe", "hash-object",
              "diff-index", "diff-files", "check-ignore", "count-objects"}
+
+
+def gen_alias_word(r):
+    """one shell-like word as a user would write it in an alias value"""
+    out = ""
+    for _ in range(r.range(1, 3)):
+        form = r.pick(["plain", "plain", "sq", "dq", "esc"])
+        body = "".join(r.pick(list("abx.%=- ") + ["\\", "\\", '"', "'"]) for _ in range(r.range(1, 5)))
+        if form == "plain":
+            out += "".join(c for c in body if c not in " \\\"'") or "w"
+        elif form == "sq":
+            out += "'" + (body.replace("'", "") or "q") + "'"
+        elif form == "dq":
+            b = body.replace("\\", "\\\\").replace('"', '\\"')
+            out += '"' + (b or "d") + '"'
+        else:
+            out += "\\" + r.pick(list("ab \\'\""))
+    return out
+
+
+def gen_alias_value(r, k):
+    from .c18 import alias_value_edge
+    for _ in range(20):
+        words = [gen_alias_word(r) for _ in range(r.range(1, 3))]
+        head = r.pick(["rev-parse --sq-quote", "rev-parse --sq-quote", "log --format=%s -5 --grep", f"commit --allow-empty -m"])
+        if not head.startswith("rev-parse"):
+            words = words[:1]
+        v = head + r.pick([" ", "  ", "\t"]) + " ".join(words)
+        if not alias_value_edge(v):
+            return v
+    return "rev-parse --sq-quote plain"
 
 
 def gen_commands(r, n):
@@ -56,7 +88,7 @@ def gen_commands(r, n):
     for k in range(n):
         kind = r.weighted([(8, "E"), (5, "A"), (6, "commit"), (3, "add"), (4, "ro"), (2, "branch"), (2, "switch"),
                            (2, "reset"), (2, "stash"), (2, "merge"), (2, "rebase"), (1, "cherry"), (2, "tag"),
-                           (2, "rm_mv"), (2, "restore"), (3, "invalid"), (2, "plumbing"), (2, "globalopt"), (1, "usernotes")])
+                           (2, "rm_mv"), (2, "restore"), (3, "invalid"), (2, "plumbing"), (2, "globalopt"), (1, "usernotes"), (3, "alias")])
         if kind in ("E", "A"):
             cmds.append((kind, r.pick(files), r.below(10 ** 6)))
         elif kind == "commit":
@@ -107,6 +139,13 @@ def gen_commands(r, n):
                                         ["cat-file", "-p", "HEAD"], ["ls-tree", "-r", "HEAD"], ["rev-list", "--count", "HEAD"],
                                         ["for-each-ref", "--format=%(refname)", "refs/heads", "refs/tags"], ["hash-object", "-w", "a.txt"], ["update-index", "--refresh"],
                                         ["read-tree", "HEAD"], ["commit-tree", "HEAD^{tree}", "-m", "ct"], ["pack-refs", "--all"], ["gc", "--quiet"]])))
+        elif kind == "alias":
+            # a user alias whose value needs git's own word splitting (quotes, backslashes); git and the proxy must
+            # hand the command the same words.  Values of known class C18-K5 are not generated.
+            name = f"al{k}"
+            val = gen_alias_value(r, k)
+            cmds.append(("git", ["config", f"alias.{name}", val]))
+            cmds.append(("git", [name] + r.pick([[], [], ["--"], ["-q"]]) if val.startswith("rev-parse") else [name]))
         elif kind == "globalopt":
             cmds.append(("git", r.pick([["-c", "core.abbrev=9", "log", "--oneline", "-2"], ["--no-pager", "diff"], ["-C", ".", "status", "-s"],
                                         ["-c", "user.name=Zed", "commit", "--allow-empty", "-m", f"g{k}"], ["--literal-pathspecs", "add", "a.txt"],
@@ -208,7 +247,8 @@ def scenario(args):
                 continue
             argv = c[1]
             n_cmd += 1
-            kinds[argv[0] if not argv[0].startswith("-") else "global"] = kinds.get(argv[0] if not argv[0].startswith("-") else "global", 0) + 1
+            kkey = "global" if argv[0].startswith("-") else ("<user alias>" if re.fullmatch(r"al\d+", argv[0]) else argv[0])
+            kinds[kkey] = kinds.get(kkey, 0) + 1
             env = {"GIT_EDITOR": "true", "GIT_MERGE_AUTOEDIT": "no"}
             t = max(plain.clock, prox.clock)
             plain.clock = prox.clock = t
